@@ -222,6 +222,9 @@ class MemTransport(asyncio.Transport):
     def write(self, data):
         if self._closing:
             return
+        if getattr(self, "fail_next_write", None) is not None:
+            exc, self.fail_next_write = self.fail_next_write, None
+            raise exc           # what a transport over a dead socket / TLS layer can do (EPIPE, ETIMEDOUT, SSLError)
         data = bytes(data)
         self.written.append((self._loop._vtime, data))
         self._peer._client_wrote(data)
